@@ -1393,7 +1393,7 @@ register(C10())
 # ======================================================================================
 def rand_seed_ref(g, rng, shape, kind=None):
     """a seed that broadcasts to `shape` (or, for kind='bad', one that does not)"""
-    kind = kind or rng.choice(["scalar", "0d", "full", "lower", "ones", "arr", "tensor"])
+    kind = kind or rng.choice(["scalar", "0d", "full", "lower", "ones", "arr", "tensor", "rowview", "list"])
     shape = tuple(shape)
     if kind == "bad":
         c = rng.random()
@@ -1415,6 +1415,17 @@ def rand_seed_ref(g, rng, shape, kind=None):
         return {"n": enc_arr(g.rand_vals(s1, "f8"))}
     if kind == "arr":
         return {"a": g.arr(shape=shape, dtype=rng.choice(["f8", "f4"]))}
+    if kind == "rowview":
+        # a seed that does not own its memory: one row of a larger caller array (or every other one)
+        big = g.arr(shape=(2,) + shape, dtype="f8")
+        h = g.new_h()
+        ix = rng.choice([0, 1, -1])
+        g.emit({"k": "aview", "out": h, "src": big, "index": enc_index(ix)})
+        g.a[h] = g.a[big][ix]
+        g.a_ro[h] = False
+        return {"a": h}
+    if kind == "list":
+        return {"l": enc_arr(g.rand_vals(shape, "f8"))}
     if kind == "tensor":
         return {"t": g.leaf(shape=shape, dtype="f8", constant=rng.choice([None, True]))}
     return {"n": enc_arr(g.rand_vals(shape, rng.choice(["f8", "f4"])))}
@@ -1474,8 +1485,9 @@ class C14(C01):
     def final_events(self, rng, g, L, j, off):
         shape = g.t[L].val.shape if L in g.t else ()
         if j == 0:
+            n0 = len(g.ev)
             self._seed = None if rng.random() < 0.25 else rand_seed_ref(g, rng, shape)
-            evs = []
+            evs = list(g.ev[n0:])  # the statements that create a caller-array / tensor seed
             if rng.random() < 0.35:
                 evs.append({"k": "backward", "tgt": L + off, "seed": rand_seed_ref(g, rng, shape, "bad"), "fail": 1})
             ev = {"k": "backward", "tgt": L + off}
